@@ -14,7 +14,8 @@ ALL_APIS = '{"MapReduce","MapReduceVoid","MapReduceChan","ForEach","Finish","Fin
 ALL_MB = '{"w0","w1","w2","cancelE","cancelNil","panic","latepanic"}'
 ALL_REND = '{"ret","panic","latepanic","cancel"}'
 ALL_CTX = '{"bg","before","during"}'
-BOTH = '{"panicbuf","deadline"}'
+P12 = '{"panicbuf","deadline"}'
+ALL3 = '{"panicbuf","deadline","outclose"}'
 
 META = dict(
     text="Contract + mechanism model + black-box stress: spec/MRContract.tla states, for a scenario (item count, workers, "
@@ -123,32 +124,40 @@ def mc(ctx):
     if quick:
         late_q = dict(LATE, NSet="{2}", WSet="{2}", RStopSet="{-1}", RWSet="{1}", REndSet='{"ret"}')
         asis = fams(fam(**NOCAUSE, NSet="0..2"), fam(**CAUSES, NSet="0..1"), fam(**late_q))
+        rep12 = None
         rep = fams(fam(**CAUSES, NSet="0..1"), fam(**late_q), fam(**FOREACH, NSet="0..2"), fam(**CTXF, NSet="0..1"))
         small = fams(fam(NSet="0..1", WSet="{1}", MBSet='{"w1","panic"}', RStopSet="{-1,0}", RWSet="{1}",
                          REndSet='{"ret","panic"}', GenKSet="{-1,0}", CtxSet='{"bg","during"}'))
     else:
         asis = fams(fam(**NOCAUSE, NSet="0..3"), fam(**CAUSES), fam(**LATE), fam(**FOREACH, NSet="0..3"))
-        rep = fams(fam(**CAUSES), fam(**LATE), fam(**FOREACH, NSet="0..3"), fam(**CTXF))
+        rep12 = fams(fam(**CAUSES))
+        rep = fams(fam(**CAUSES), fam(**LATE), fam(**FOREACH, NSet="0..3"), fam(**dict(CTXF, GenKSet="{-1}")),
+                   fam(**dict(CTXF, NSet="0..1", RWSet="0..2")), fam(**NOCAUSE, NSet="0..2"))
         small = fams(fam(NSet="0..1", WSet="{1}", MBSet='{"w1","cancelE","panic"}', RStopSet="{-1,0}", RWSet="0..1",
                          REndSet='{"ret","panic"}', GenKSet="{-1,0}", CtxSet='{"bg","during"}'))
     # (b) the code as it is: everything except what a blocked onceChan.write explains
     pipeline(ctx, "asis", asis, "{}", '{"rt","noout"}', INV_ASIS)
-    # (c) the proposed repairs: nothing blocks, every result allowed (only the send-on-closed-output lead tolerated)
-    pipeline(ctx, "repaired", rep, BOTH, '{"rt"}', INV_REPAIRED)
+    # (c) the proposed repairs.  1+2 (panic channel, deadline): nothing blocks, every result allowed except the
+    #     send-on-closed-output lead; 1+2+3 (output closed by its only sender): nothing tolerated at all
+    if rep12:
+        pipeline(ctx, "repaired-1-2", rep12, P12, '{"rt"}', INV_REPAIRED)
+    pipeline(ctx, "repaired-1-2-3", rep, ALL3, "{}", INV_REPAIRED + ["NoSendOnClosed"])
     # (d) every behaviour comes to rest (weak fairness), small family, with action coverage as vacuity guard
-    r = pipeline(ctx, "repaired-termination", small, BOTH, '{"rt"}', ["ResultOK"], properties=["Termination"], spec="FairSpec", coverage=True)
+    r = pipeline(ctx, "repaired-termination", small, ALL3, "{}", ["ResultOK"], properties=["Termination"], spec="FairSpec", coverage=True)
     ctx.check_coverage(r, ["CtxFire", "GenEnd", "GenClose", "SrcHandoff", "SrcClosedRecv", "PwBuffered", "CallerTakePanic",
                            "PrioEmpty", "CallerCtx", "CallerCtxRet", "OutHandoff", "OutClosedRecv", "CallerEval", "XOnce",
-                           "XSet", "XRet", "FOnce", "FCloseDone", "FCloseOut", "DLoop", "DSelect", "DWait", "DCloseColl",
-                           "MWChk", "MWSend", "MFail", "MExit", "MUnpool", "RRecv", "RWChk", "REnd", "RDefer", "RFinish"])
+                           "XSet", "XRet", "FOnce", "FCloseDone", "RCloseOut", "CallerSeesDone", "WriteAbandon", "DLoop", "DSelect",
+                           "DWait", "DCloseColl", "MWChk", "MWSend", "MFail", "MExit", "MUnpool", "RRecv", "RWChk", "REnd",
+                           "RDefer", "RFinish"])
     if not quick:
         r = pipeline(ctx, "asis-termination", small, "{}", '{"rt","noout"}', ["ResultOKAsIs"], properties=["Termination"],
                      spec="FairSpec", coverage=True)
-        ctx.check_coverage(r, ["Cas", "CallerRecvPanic", "RSendClosed"])
+        ctx.check_coverage(r, ["Cas", "CallerRecvPanic", "RSendClosed", "FCloseOut"])
     ctx.notes["model_leads"] = [
         "send-on-closed-output: finish() (from cancel or the caller's ctx branch) closes `output` between the reducer's "
         "guardedWriter check and its send; the runtime error is recovered in the reducer goroutine, written to panicChan and "
-        "may be re-raised in the caller (tolerated in ResultOK as Tolerate={rt}; independent of the repairs)",
+        "may be re-raised in the caller; the race detector reports the same close-versus-send (tolerated in ResultOK as "
+        "Tolerate={rt} for the code as it is and for repairs 1+2; removed by repair 'outclose')",
         "no-output-instead-of-deadline: with a done context the reducer's write is dropped, finish() closes output and the "
         "caller's select may take output instead of ctx.Done(): ErrReduceNoOutput/nil instead of DeadlineExceeded (removed by "
         "repair 'deadline'; tolerated as Tolerate={noout} on the model of the code as it is)",
@@ -229,7 +238,10 @@ def run(ctx):
 
 
 def replay(ctx, rp):
-    path, _ = ctx.write_cases("replay.ndjson", [rp["case"]])
+    if rp.get("case"):
+        path, _ = ctx.write_cases("replay.ndjson", [rp["case"]])
+    else:  # a race-detector report is not tied to one case: run the quick scenario set again
+        path, _ = ctx.write_cases("replay.ndjson", scenario_cases(ctx))
     binp = ctx.go_build(PKG, OVERLAY, race=True, name="c07drv")
     for gmp in (16, 2, 1):
-        run_driver(ctx, binp, path, "replay-g%d" % gmp, 300, gmp, shards=1)
+        run_driver(ctx, binp, path, "replay-g%d" % gmp, 300 if rp.get("case") else 2, gmp, shards=1 if rp.get("case") else 16)
